@@ -48,7 +48,7 @@ func runC08(c *core.Ctx) {
 		switch r.Intn(4) {
 		case 0:
 			w, h = r.Range(1, 70), r.Range(1, 5)
-			if r.Chance(1, 6) {
+			if r.Chance(1, 6) && c.Mode != "par" {
 				w, h = r.Range(60, 150), r.Range(60, 150) // thousands of cells
 			}
 		case 1:
@@ -57,6 +57,10 @@ func runC08(c *core.Ctx) {
 			w, h = r.Range(0, 12), r.Range(0, 12)
 		case 3:
 			w, h = r.Range(7, 24), r.Range(7, 24)
+		}
+		if c.Mode != "par" && (c.Index == 63 || (c.Tier == "thorough" && c.Index%4000 == 63)) {
+			w, h = r.Range(257, 330), r.Range(257, 330) // more than 65536 cells
+			c.Count("shapes_beyond_65536_cells", 1)
 		}
 	}
 	var hist []string
@@ -465,6 +469,61 @@ func runC08(c *core.Ctx) {
 	if !checkString("final", a, g) {
 		return
 	}
+	// systematic shapes: EVERY Fill rectangle (all four corners, in every order) and EVERY
+	// RowSpan (x1 <= x2) of the shape, each against the cell model
+	if c.Index < 49 && w >= 1 && h >= 1 {
+		fa := arrays.New2D[int](w, h)
+		fm := newGrid(w, h)
+		v := 500000
+		for x1 := 0; x1 < w; x1++ {
+			for x2 := 0; x2 < w; x2++ {
+				for y1 := 0; y1 < h; y1++ {
+					for y2 := 0; y2 < h; y2++ {
+						v++
+						fa.Fill(x1, y1, x2, y2, v)
+						for y := min(y1, y2); y <= max(y1, y2); y++ {
+							for x := min(x1, x2); x <= max(x1, x2); x++ {
+								fm.m[y][x] = v
+							}
+						}
+						for y := 0; y < h; y++ {
+							for x := 0; x < w; x++ {
+								if g := fa.Get(x, y); g != fm.m[y][x] {
+									fail("Fill:cell[exhaustive]", fmt.Sprintf("after Fill(%d,%d,%d,%d) cell (%d,%d) holds %d, model %d", x1, y1, x2, y2, x, y, g, fm.m[y][x]))
+									return
+								}
+							}
+						}
+					}
+				}
+			}
+		}
+		for y := 0; y < h; y++ {
+			for x1 := 0; x1 < w; x1++ {
+				for x2 := x1; x2 < w; x2++ {
+					sp := fa.RowSpan(x1, x2, y)
+					if len(sp) != x2-x1+1 {
+						fail("RowSpan:length[exhaustive]", fmt.Sprintf("RowSpan(%d,%d,%d) has length %d", x1, x2, y, len(sp)))
+						return
+					}
+					for i := range sp {
+						if sp[i] != fm.m[y][x1+i] {
+							fail("RowSpan:contents[exhaustive]", fmt.Sprintf("RowSpan(%d,%d,%d)[%d]=%d, cell holds %d", x1, x2, y, i, sp[i], fm.m[y][x1+i]))
+							return
+						}
+					}
+					v++
+					sp[len(sp)-1] = v
+					fm.m[y][x2] = v
+					if fa.Get(x2, y) != v {
+						fail("RowSpan:not-live[exhaustive]", fmt.Sprintf("a write through RowSpan(%d,%d,%d) did not reach cell (%d,%d)", x1, x2, y, x2, y))
+						return
+					}
+				}
+			}
+		}
+		c.Count("exhaustive_fill_and_rowspan_shapes", 1)
+	}
 	// element types that cannot be compared (slices, funcs) and values that compare
 	// equal to the zero value without being it (-0.0): cells must hold exactly what was stored
 	if c.Index%4 == 2 && w >= 1 && h >= 1 {
@@ -644,6 +703,10 @@ func arrTyped[T comparable](c *core.Ctx, tname string, val func(i int) T) bool {
 		if !same(a, model) {
 			return false
 		}
+	}
+	if s, want := a.String(), fmt.Sprint(model); s != want {
+		last = "String"
+		return fail("String", fmt.Sprintf("String()=%.200q, the cell model prints %.200q", s, want))
 	}
 	c.Count("typed_arrays_"+tname, 1)
 	return true
